@@ -146,6 +146,15 @@ m('M82-batch-shift-wrong-len', ['C13'], (F, "f.gl.ExpExtension(friAlpha, uint64(
 m('M83-leaf-subslice', ['C12'], (F, "\t\tevals := proof.EvalsProofs[i].Elements\n", "\t\tevals := proof.EvalsProofs[i].Elements[1:]\n"))
 m('M84-sponge-zero-extend', ['C09', 'C02'], (PG, "\t\t\tif i+j < len(input) {\n\t\t\t\tstate[j] = input[i+j]\n\t\t\t}", "\t\t\tif i+j < len(input) {\n\t\t\t\tstate[j] = input[i+j]\n\t\t\t} else {\n\t\t\t\tstate[j] = gl.Zero()\n\t\t\t}"))
 
+# ---- MulAcc accumulator discipline (C07: goldilocks sites, C10: poseidon sites)
+PB2 = 'poseidon/bn254.go'
+m('M85-muladdnoreduce-no-copy', ['C07'], (B, "\tcLimbCopy := p.api.Mul(c.Limb, 1)\n\treturn NewVariable(p.api.MulAcc(cLimbCopy, a.Limb, b.Limb))", "\treturn NewVariable(p.api.MulAcc(c.Limb, a.Limb, b.Limb))"))
+m('M86-muladd-no-copy', ['C07'], (B, "\tcLimbCopy := p.api.Mul(c.Limb, 1)\n\tlhs := p.api.MulAcc(cLimbCopy, a.Limb, b.Limb)", "\tlhs := p.api.MulAcc(c.Limb, a.Limb, b.Limb)"))
+m('M87-hashornoop-acc-from-input', ['C10'], (PB2, "\t\treturnVal := frontend.Variable(0)\n", "\t\treturnVal := input[0].Limb\n"), (PB2, "\t\tfor i, inputElement := range input {\n\t\t\tmulFactor", "\t\tfor i, inputElement := range input {\n\t\t\tif i == 0 {\n\t\t\t\tcontinue\n\t\t\t}\n\t\t\tmulFactor"))
+m('M88-partial-rounds-array-copy', ['C10'], (PB2, "\t\tnewState0 := frontend.Variable(0)\n\t\tfor j := 0; j < BN254_SPONGE_WIDTH; j++ {\n\t\t\tnewState0 = c.api.MulAcc(newState0, sConstants[(BN254_SPONGE_WIDTH*2-1)*i+j], state[j])\n\t\t}\n\n\t\tfor k := 1; k < BN254_SPONGE_WIDTH; k++ {\n\t\t\tstate[k] = c.api.MulAcc(state[k], state[0], sConstants[(BN254_SPONGE_WIDTH*2-1)*i+BN254_SPONGE_WIDTH+k-1])\n\t\t}\n\t\tstate[0] = newState0\n", "\t\tprev := state\n\t\tfor k := 1; k < BN254_SPONGE_WIDTH; k++ {\n\t\t\tstate[k] = c.api.MulAcc(state[k], prev[0], sConstants[(BN254_SPONGE_WIDTH*2-1)*i+BN254_SPONGE_WIDTH+k-1])\n\t\t}\n\t\tstate[0] = frontend.Variable(0)\n\t\tfor j := 0; j < BN254_SPONGE_WIDTH; j++ {\n\t\t\tstate[0] = c.api.MulAcc(state[0], sConstants[(BN254_SPONGE_WIDTH*2-1)*i+j], prev[j])\n\t\t}\n"))
+m('M89-mix-accumulates-on-input', ['C10'], (PB2, "\t\tresult[i] = frontend.Variable(0)\n", "\t\tresult[i] = state_[i]\n"))
+m('M90-poseidon-keeps-state', ['C10'], (PB2, "\tstate = c.fullRounds(state, true)\n\tstate = c.partialRounds(state)\n", "\tstate = c.fullRounds(state, true)\n\tbefore := state\n\tstate = c.partialRounds(state)\n\tc.api.AssertIsDifferent(before[1], state[1])\n"))
+
 # ---- behaviour-preserving refactors: must stay silent on every property
 ALL = ['C01', 'C02', 'C03', 'C04', 'C05', 'C06', 'C07', 'C08', 'C09', 'C10', 'C11', 'C12', 'C13', 'C14', 'C15', 'C16', 'C17', 'C18', 'C19', 'C20']
 m('R02-inline-assertLeadingZeros', [], (F, "\tf.assertLeadingZeros(friChallenges.FriPowResponse, f.friParams.Config)\n", "\tf.gl.RangeCheckWithMaxBits(friChallenges.FriPowResponse, 64-f.friParams.Config.ProofOfWorkBits)\n"))
@@ -192,6 +201,10 @@ m('R43-batch-shift-poly-len', [], (F, "f.gl.ExpExtension(friAlpha, uint64(len(ev
 m('R44-leaf-hoisted', [], (F, "\t\tevals := proof.EvalsProofs[i].Elements\n\t\tmerkleProof := proof.EvalsProofs[i].MerkleProof\n", "\t\tep := proof.EvalsProofs[i]\n\t\tevals := ep.Elements\n\t\tmerkleProof := ep.MerkleProof\n"))
 m('R45-reduce-width-local', [], (B, "\treturn p.ReduceWithMaxBits(x, uint64(RANGE_CHECK_NB_BITS))", "\tnb := uint64(RANGE_CHECK_NB_BITS)\n\treturn p.ReduceWithMaxBits(x, nb)"))
 m('R46-inverse-select-swapped', [], (B, "\tproductToCheck := p.api.Select(hasInv, product.Limb, frontend.Variable(1))", "\tproductToCheck := p.api.Select(isZero, frontend.Variable(1), product.Limb)"))
+m('R47-muladdnoreduce-add-zero-copy', [], (B, "\tcLimbCopy := p.api.Mul(c.Limb, 1)\n\treturn NewVariable(p.api.MulAcc(cLimbCopy, a.Limb, b.Limb))", "\tacc := p.api.Add(c.Limb, 0)\n\tacc = p.api.MulAcc(acc, a.Limb, b.Limb)\n\treturn NewVariable(acc)"))
+m('R48-partial-rounds-temp-acc', [], ('poseidon/bn254.go', "\t\t\tstate[k] = c.api.MulAcc(state[k], state[0], sConstants[(BN254_SPONGE_WIDTH*2-1)*i+BN254_SPONGE_WIDTH+k-1])", "\t\t\tfirst := state[0]\n\t\t\tacc := state[k]\n\t\t\tacc = c.api.MulAcc(acc, first, sConstants[(BN254_SPONGE_WIDTH*2-1)*i+BN254_SPONGE_WIDTH+k-1])\n\t\t\tstate[k] = acc"))
+m('R49-mix-scalar-acc', [], ('poseidon/bn254.go', "\t\tfor j := 0; j < BN254_SPONGE_WIDTH; j++ {\n\t\t\tresult[i] = c.api.MulAcc(result[i], constantMatrix[j][i], state_[j])\n\t\t}", "\t\tacc := frontend.Variable(0)\n\t\tfor j := 0; j < BN254_SPONGE_WIDTH; j++ {\n\t\t\tacc = c.api.MulAcc(acc, constantMatrix[j][i], state_[j])\n\t\t}\n\t\tresult[i] = acc"))
+m('R50-poseidon-named-stages', [], ('poseidon/bn254.go', "\tstate = c.ark(state, 0)\n\tstate = c.fullRounds(state, true)\n\tstate = c.partialRounds(state)\n\tstate = c.fullRounds(state, false)\n\treturn state", "\ts0 := c.ark(state, 0)\n\ts1 := c.fullRounds(s0, true)\n\ts2 := c.partialRounds(s1)\n\treturn c.fullRounds(s2, false)"))
 
 if __name__ == '__main__':
     import json, sys
